@@ -10,6 +10,12 @@ def build(profile="dev"):
         return _built[profile]
     os.makedirs(BUILD, exist_ok=True)
     crate = os.path.join(VERIF, "replay")
+    if REPO != "/repo":       # scratch tree: private copy of the crate with its path dependencies redirected
+        src = crate; crate = os.path.join(BUILD, "replay-crate")
+        shutil.rmtree(crate, ignore_errors=True); shutil.copytree(src, crate, ignore=shutil.ignore_patterns("target"))
+        os.makedirs(os.path.join(BUILD, "kani", "src"), exist_ok=True)
+        shutil.copyfile(os.path.join(VERIF, "kani", "src", "kmer_checks.rs"), os.path.join(BUILD, "kani", "src", "kmer_checks.rs"))
+        open(os.path.join(crate, "Cargo.toml"), "w").write(open(os.path.join(src, "Cargo.toml.in")).read().replace("@REPO@", REPO))
     shutil.copyfile(os.path.join(REPO, "Cargo.lock"), os.path.join(crate, "Cargo.lock"))
     tdir = os.path.join(BUILD, "replay")
     env = dict(ENV)
